@@ -208,6 +208,24 @@ func extractGroup(repo, root string) error {
 		return fmt.Errorf("untranslated: fetchOffsets negative test (%q), close wait test (%q) or Start last-routine test (%q) not found", negOp, waitOp, lastOp)
 	}
 
+	// reader.go FetchMessage: the generation filter `<message>.version <op> <sampled version>`
+	versionOp := ""
+	if fd := funcOf(rf, "Reader", "FetchMessage"); fd != nil {
+		ast.Inspect(fd.Body, func(n ast.Node) bool {
+			if b, ok := n.(*ast.BinaryExpr); ok && sel(b.X) == "version" {
+				if _, isSel := b.X.(*ast.SelectorExpr); isSel {
+					if _, isId := b.Y.(*ast.Ident); isId {
+						versionOp = b.Op.String()
+					}
+				}
+			}
+			return true
+		})
+	}
+	if versionOp == "" {
+		return fmt.Errorf("untranslated: the version filter of Reader.FetchMessage was not found")
+	}
+
 	// reader.go NewReader: the ConsumerGroupConfig literal — which ReaderConfig field feeds which ConsumerGroupConfig field
 	var optPairs []string
 	if fd := funcOf(rf, "", "NewReader"); fd != nil {
@@ -237,6 +255,7 @@ func extractGroup(repo, root string) error {
 	fmt.Fprintf(&b, "def closeWaitTest : String × String := (%q, %q)\n", waitOp, waitLit)
 	fmt.Fprintf(&b, "def startLastRoutineTest : String × String := (%q, %q)\n", lastOp, lastLit)
 	fmt.Fprintf(&b, "def startRoutinesIncDec : Nat × Nat := (%d, %d)\n", incs, decs)
+	fmt.Fprintf(&b, "def fetchVersionFilter : String := %q\n", versionOp)
 	fmt.Fprintf(&b, "def readerGroupOptions : List (String × String) := [%s]\n", strings.Join(optPairs, ", "))
 	b.WriteString("end KV.Gen.Group\n")
 	return os.WriteFile(filepath.Join(root, "lean/KafkaVerif/Gen/GroupFacts.lean"), []byte(b.String()), 0o644)
